@@ -81,6 +81,7 @@ RULE_TITLES = {
     'R50': 'stored integers of values are written only in freshly built objects (values are immutable)',
     'R51': 'no unbound local or free variable on the count path',
     'R52': 'optional source / comment strings are read whenever a quoted token follows',
+    'R55': 'QPQ stage bookkeeping (tx, va, vc, tc, quotient, new weight, restart) equals Woodall 2.3-2.5 modulo renaming, in order',
     'R54': 'QPQ: an election by quotient re-weights the winner\'s ballots before the next action is recorded',
     'R53': 'every attribute read from the rule object outside the rules exists for every registered rule class',
 }
@@ -222,7 +223,7 @@ prop('C14',
      ['digit-exactness of the printed string for a given value (needs evaluation)'])
 prop('C07',
      [('R00', cf.r00_helper_semantics), ('R15', ti.r15_tie_funnel), ('R16', ti.r16_extremum_polarity), ('R17', ti.r17_single_from_breaktie),
-      ('R18', ti.r18_sure_loser_strict), ('R03', bt.r03_batch_cap)],
+      ('R18', ti.r18_sure_loser_strict), ('R03', bt.r03_batch_cap), ('R55', gr.r55_qpq_stage)],
      'Static analysis of /repo source: the tie order is consulted only inside the rules\' breakTie functions, which log '
      'every tie among several candidates and return the first in the declared order; the set handed to breakTie for an '
      'exclusion is the arg-min set of the tally over the hopefuls (within the surplus for Meek), for a surplus the arg-max '
@@ -280,7 +281,7 @@ prop('C08',
 
 prop('C04',
      [('R00', cf.r00_helper_semantics), ('R13', qt.r13_quota), ('R14', qt.r14_elect_before_exclude), ('R02', cf.r02_elect_sites), ('R12', mk.r12_iteration_exits),
-      ('R21', va.r21_scale_rounding), ('R35', op.r35_forced_closure)],
+      ('R21', va.r21_scale_rounding), ('R35', op.r35_forced_closure), ('R55', gr.r55_qpq_stage)],
      'Static analysis of every rule: each quota expression, canonicalised, equals the form the property prescribes for the '
      'branch it is on (exact / truncated + one unit / integer floor + 1 / Meek from the votes still credited / QPQ); the '
      'election comparison is > exactly on exact branches and >= otherwise; epsilon is read only where the arithmetic has '
@@ -293,7 +294,7 @@ prop('C04',
 
 prop('C02',
      [('R00', cf.r00_helper_semantics), ('R07', gr.r07_transfer_once), ('R08', gr.r08_reset_pairing), ('R09', gr.r09_reweighting), ('R10', mk.r10_residual_pairing), ('R10b', mk.r10b_redistribute_before_record), ('R10c', mk.r10c_keep_split), ('R29', ps.r29_ballot_count_pairing),
-      ('R19', gr.r19_multiplier_last), ('R21', va.r21_scale_rounding), ('R22', va.r22_closure), ('R37', rr.r37_status_changes_logged), ('R20', gr.r20_order_free_loops), ('R54', gr.r54_qpq_reweight)],
+      ('R19', gr.r19_multiplier_last), ('R21', va.r21_scale_rounding), ('R22', va.r22_closure), ('R37', rr.r37_status_changes_logged), ('R20', gr.r20_order_free_loops), ('R54', gr.r54_qpq_reweight), ('R55', gr.r55_qpq_stage)],
      'Static analysis of the bookkeeping shape that conservation rests on: a transferred ballot is credited exactly once '
      '(candidate or non-transferable total); a tally is reset only after all its ballots were passed on; transfer values '
      'are old x surplus / tally rounded down (a transfer cannot create votes); Meek credits and residual debits are the same '
